@@ -137,7 +137,7 @@ func c02Filter(r *rand.Rand, withLimit bool) *mocrelay.ReqFilter {
 
 func TestVerif_C02(t *testing.T) {
 	rep := vk.NewReport(t, "C02", "exploration")
-	rep.Rule = "events and filters drawn from a tiny universe (4 ids and 3 authors plus an upper-case spelling of one of each, 4 kinds, 9 tag names x 7 values (two of them suffixes of multi-letter tag names, two 70 bytes long with a common 64-byte prefix), timestamps 0..5 and, one time in eight, a boundary value: ends of the int64 range and the points where conversions to time.Time, float64 or int32 wrap); every filter field independently absent/empty/singleton/multi; a case is one (event, filter) pair or one (event sequence, filter list) limit run; 400/8000 matchers are each used by four goroutines at once; non-trivial = the filter has at least one condition present; distinct = distinct (presence mask, per-condition outcome vector) for pairs, distinct (limit vector, done-prefix pattern) for sequences"
+	rep.Rule = "events and filters drawn from a tiny universe (4 ids and 3 authors plus an upper-case spelling of one of each, 4 kinds, 9 tag names x 7 values (two of them suffixes of multi-letter tag names, two 70 bytes long with a common 64-byte prefix), timestamps 0..5 and, one time in eight, a boundary value: ends of the int64 range and the points where conversions to time.Time, float64 or int32 wrap); every filter field independently absent/empty/singleton/multi; a case is one (event, filter) pair or one (event sequence, filter list) limit run; 400/8000 matchers are each used by four goroutines at once; added later: filters whose tag map is present without an entry, events whose tag list is nil; 80 matchers built before everything else are judged at once and again after the whole run and 30 000 further value lists; non-trivial = the filter has at least one condition present; distinct = distinct (presence mask, per-condition outcome vector) for pairs, distinct (limit vector, done-prefix pattern) for sequences"
 	defer rep.Finish()
 
 	nPairs := vk.N(200_000, 5_000_000)
